@@ -222,7 +222,7 @@ def run_unit(ex, H, unit, res):
     def on_end(ex, kind, r):
         res['paths'] += 1
         if kind == 'panic':
-            res['violations'].append({'key': f'mirx:udp:panic:{r.msg[:60]}', 'desc': f'panic in {r.site}: {r.msg}', 'values': {}, 'unit': res['unit']})
+            res['violations'].append({'key': f'mirx:udp:panic:{r.msg[:60]}', 'desc': f'panic in {r.site}: {r.msg}', 'values': ex.model_values(), 'unit': res['unit']})
         elif len(res['samples']) < 3:
             s = ' ; '.join(r)
             if s not in res['samples']:
@@ -380,8 +380,82 @@ def malformed_units(tier):
     return us
 
 
+def run_open_listen_unit(ex, H, unit, res):
+    """C04: `Udp::open_and_listen` is an async fn; its synchronous prefix (everything before the first inner future is polled) is what
+    registers the binding.  The coroutine is polled once; execution stops where it polls `open_for_sending`.  Afterwards the binding
+    table must hold exactly (endpoints.local -> upstream), or be unchanged with an error if that socket was already bound."""
+    from .core import Suspended
+    pre = unit['prebound']
+
+    def body(ex):
+        env = {'protocols': {}, 'apps': [], 'deliveries': []}
+        ex.env = env
+        udp = {'u': ex.call('Udp::new', [])}
+        ip = ex.call('<Ipv4 as Default>::default', []) if ex.resolve('<Ipv4 as Default>::default') else Agg('Ipv4', {0: MapV('DashMap', []), 1: MapV('HashMap', [])})
+        env['protocols']['Ipv4'] = ip
+        machine = Agg('Arc', {0: Opaque('machine')})
+        la, lp = sym_int('laddr', 32), sym_int('lport', 16)
+        ra, rp = sym_int('raddr', 32), sym_int('rport', 16)
+        same = False
+        if pre:
+            pa, pp = sym_int('baddr0', 32), sym_int('bport0', 16)
+            r0 = ex.call('Udp::listen', [Ref(udp, 'u'), Agg('TypeId', {0: Int(64, 0x1000)}), Agg('Endpoint', {0: ipaddr_of_u32(ex, pa), 1: pp}), clone_val(machine)])
+            same = ex.concretize_bool(b_and(ex.binop('Eq', pa, la, False), ex.binop('Eq', pp, lp, False)))
+        eps = Agg('Endpoints', {0: Agg('Endpoint', {0: ipaddr_of_u32(ex, la), 1: lp}), 1: Agg('Endpoint', {0: ipaddr_of_u32(ex, ra), 1: rp})})
+        up = Agg('TypeId', {0: Int(64, 0x2000)})
+        co = {'c': ex.call('Udp::open_and_listen', [Ref(udp, 'u'), up, eps, clone_val(machine)])}
+        body_fn = [f for n, f in ex.fns.items() if n.endswith('open_and_listen::{closure#0}') and 'udp' in n.lower()]
+        if len(body_fn) != 1:
+            raise Unsupported('coroutine body of Udp::open_and_listen not found')
+        outcome = 'returned'
+        try:
+            r = ex.run(body_fn[0], [Agg('Pin', {0: Ref(co, 'c')}), Ref({'cx': Opaque('task context')}, 'cx')])
+        except Suspended as sp:
+            outcome = 'suspended at ' + sp.callee[:60]
+            r = None
+        res['obligations'] += 1
+        items = udp['u'].f[0].items
+        if same:
+            # the socket was taken: refused, table unchanged
+            if r is None or len(items) != 1:
+                raise SpecViolation('c04:open-and-listen-on-bound-socket', f'open_and_listen on an already bound socket was not refused cleanly ({outcome}, {len(items)} bindings)')
+            return 'refused (socket already bound)'
+        want = (1 if pre else 0) + 1
+        if len(items) != want:
+            raise SpecViolation('c04:open-and-listen-binding-count', f'open_and_listen left {len(items)} bindings, expected {want} ({outcome})')
+        k, v = items[-1]
+        okv, m = _valid(ex, b_and(ex.binop('Eq', u32_of_ipaddr(ex, k.f[0]), la, False), ex.binop('Eq', k.f[1], lp, False), ex.binop('Eq', v.f[0], Int(64, 0x2000), False)))
+        if not okv:
+            raise SpecViolation('c04:open-and-listen-binds-other-socket', 'open_and_listen registered a binding that is not (endpoints.local -> upstream)', m)
+        return f'bound endpoints.local, then {outcome}'
+
+    def on_end(ex, kind, r):
+        res['paths'] += 1
+        if kind == 'panic':
+            res['violations'].append({'key': f'mirx:udp:panic:{r.msg[:60]}', 'desc': f'panic in {r.site}: {r.msg}', 'values': ex.model_values(), 'unit': res['unit']})
+        elif len(res['samples']) < 3 and r not in res['samples']:
+            res['samples'].append(r)
+
+    def wrapped(ex):
+        try:
+            return body(ex)
+        except SpecViolation as v:
+            m = v.model if v.model is not None else ex.check_sat()[1]
+            vals = {}
+            if m is not None:
+                for d in m.decls():
+                    try:
+                        vals[str(d)] = m[d].as_long()
+                    except Exception:
+                        pass
+            res['violations'].append({'key': f'mirx:udp:{v.role}', 'desc': v.desc, 'values': vals, 'unit': res['unit']})
+            raise PathEnd()
+
+    ex.explore(wrapped, on_end, deadline=unit.get('deadline'))
+
+
 def units(tier):
-    us = []
+    us = [{'kind': 'open_and_listen', 'prebound': False}, {'kind': 'open_and_listen', 'prebound': True}]
     for nb in (0, 1, 2, 3):
         for npay in ((0, 2) if tier == 'quick' else (0, 1, 3)):
             us.append({'bindings': nb, 'payload': npay})
@@ -412,6 +486,8 @@ def worker(args):
     try:
         if 'layer' in unit:
             run_malformed_unit(ex, _W['H'], u, res)
+        elif unit.get('kind') == 'open_and_listen':
+            run_open_listen_unit(ex, _W['H'], u, res)
         else:
             run_unit(ex, _W['H'], u, res)
     except Unsupported as e:
